@@ -26,6 +26,8 @@ type c14Func struct {
 	Sig   string `json:"sig"`
 	// Lit: expectation for literal-only functions
 	Lit [][]c14Exp `json:"lit,omitempty"`
+	// Possible: for (a, b int) functions built from constant assignments: the constants that can reach each position
+	Possible [][]string `json:"possible,omitempty"`
 }
 
 type c14Case struct {
@@ -85,6 +87,7 @@ var c14Sigs = map[string]string{
 	"anyerr": "() (any, error)",
 	"named":  "() (v int, err error)",
 	"two":    "() (a int, b string)",
+	"pair":   "() (a, b int)",
 }
 
 type c14Gen struct {
@@ -411,10 +414,54 @@ func (g *c14Gen) litFunc(name string) c14Func {
 	return c14Func{Name: name, Shape: "lit", Body: b.String(), Sig: sig, Lit: lit}
 }
 
+// pairFunc: results declared with one multi-name field; every constant is unique to its position (1x for a, 2x for b)
+func (g *c14Gen) pairFunc(f c14Func) c14Func {
+	g.feats["multi-name-result-field"] = true
+	poss := [][]string{{}, {}}
+	n := 0
+	pick := func(pos int) string {
+		n++
+		v := fmt.Sprint((pos+1)*100 + n)
+		poss[pos] = append(poss[pos], v)
+		return v
+	}
+	ret := func() string {
+		switch rapid.IntRange(0, 4).Draw(g.t, "pairret") {
+		case 0:
+			return "return " + pick(0) + ", " + pick(1)
+		case 1:
+			g.feats["bare-return"] = true
+			return "a, b = " + pick(0) + ", " + pick(1) + "\nreturn"
+		case 2:
+			g.feats["bare-return"] = true
+			return "a = " + pick(0) + "\nb = " + pick(1) + "\nreturn"
+		case 3:
+			g.feats["bare-return"] = true
+			return "b = " + pick(1) + "\na = " + pick(0) + "\nreturn"
+		default:
+			g.feats["bare-return"] = true
+			return "a = " + pick(0) + "\nreturn"
+		}
+	}
+	var b strings.Builder
+	switch rapid.IntRange(0, 3).Draw(g.t, "pairflow") {
+	case 0:
+		fmt.Fprintf(&b, "if cond() {\n%s\n}\n", ret())
+	case 1:
+		fmt.Fprintf(&b, "switch sel() {\ncase 1:\n%s\ncase 2:\n%s\n}\n", ret(), ret())
+	case 2:
+		fmt.Fprintf(&b, "for cond() {\n%s\n}\n", ret())
+	}
+	b.WriteString(ret() + "\n")
+	f.Body = b.String()
+	f.Possible = poss
+	return f
+}
+
 func genC14Pkg(t *rapid.T, prefix string, qfns []c14Func, isQ bool, feats map[string]bool) []c14Func {
 	g := &c14Gen{t: t, q: isQ, qfns: qfns, feats: feats}
 	n := rapid.IntRange(6, 24).Draw(t, "nfuncs")
-	shapes := []string{"int", "err", "terr", "anyerr", "named", "two"}
+	shapes := []string{"int", "err", "terr", "anyerr", "named", "two", "pair"}
 	for i := 0; i < n; i++ {
 		f := c14Func{Name: fmt.Sprintf("%s%d", prefix, i)}
 		if rapid.IntRange(0, 4).Draw(t, "islit") == 0 {
@@ -432,6 +479,10 @@ func genC14Pkg(t *rapid.T, prefix string, qfns []c14Func, isQ bool, feats map[st
 		g.self = i
 		if g.funcs[i].Shape == "lit" {
 			g.funcs[i] = g.litFunc(g.funcs[i].Name)
+			continue
+		}
+		if g.funcs[i].Shape == "pair" {
+			g.funcs[i] = g.pairFunc(g.funcs[i])
 			continue
 		}
 		g.funcs[i].Body = g.body(g.funcs[i].Shape)
@@ -475,6 +526,31 @@ func c14Source(pkg string, funcs []c14Func, importQ bool) string {
 	return b.String()
 }
 
+func (c c14Case) possible() map[string][][]string {
+	out := map[string][][]string{}
+	for _, f := range c.P {
+		if f.Possible != nil {
+			out[c14Key("m/p", f)] = f.Possible
+		}
+	}
+	for _, f := range c.Q {
+		if f.Possible != nil {
+			out[c14Key("m/q", f)] = f.Possible
+		}
+	}
+	return out
+}
+
+func c14Key(pkg string, f c14Func) string {
+	switch f.Recv {
+	case "R":
+		return pkg + ".(R)." + f.Name
+	case "*R":
+		return pkg + ".(*R)." + f.Name
+	}
+	return pkg + "." + f.Name
+}
+
 func (c c14Case) module() (modspec.Mod, map[string][][]c14Exp) {
 	m := modspec.Mod{Path: "m", Go: "1.21", Pkgs: []modspec.Pkg{
 		{Dir: "p", Name: "p", Other: []modspec.File{{Name: "p.go", Data: c14Source("p", c.P, true)}}},
@@ -501,7 +577,7 @@ func oracleC14(c c14Case) error {
 	writeMod(&m, dir+"/mod")
 	scratch := dir + "/scratch"
 	_ = os.MkdirAll(scratch, 0o755)
-	lines, crashes, total, err := superviseC14(c14Job{Dir: dir + "/mod", Patterns: []string{"./..."}, Literal: lit}, scratch, 90*time.Second, 1)
+	lines, crashes, total, err := superviseC14(c14Job{Dir: dir + "/mod", Patterns: []string{"./..."}, Literal: lit, Possible: c.possible()}, scratch, 90*time.Second, 1)
 	if err != nil {
 		panic("harness: " + err.Error() + "\n--- p.go ---\n" + m.Pkgs[0].Other[0].Data)
 	}
